@@ -40,7 +40,7 @@ PROFILE = gf.make_profile(
 
 
 NEST_PROFILE = gf.make_profile(
-    kinds=dict(PROFILE["kinds"]), perfect_nest=85, triangular=5,
+    kinds=dict(PROFILE["kinds"]), perfect_nest=85, triangular=10,
     helpers=(0, 0), nstmts=(1, 4))
 FUSE_PROFILE = gf.make_profile(
     kinds=dict(PROFILE["kinds"]), twin_loops=85, perfect_nest=20,
